@@ -95,6 +95,12 @@ class Inst:
             self.defs = dict(definitions_schema(deserialization=[self.prog.tp], version=V))
             # reference side with the same extraction policy (all_refs) in 2020-12 vocabulary
             self.base = dict(deserialization_schema(self.prog.tp, version=JsonSchemaVersion.DRAFT_2020_12, all_refs=True))
+        # the same types given for both directions: merged definitions (compare_schemas)
+        self.both = None
+        try:
+            self.both = dict(definitions_schema(deserialization=[self.prog.tp], serialization=[self.prog.tp], version=V))
+        except Exception:
+            self.both = None  # asymmetric schemas are refused: nothing to check
         self.ref = strip_dropped(self.base) if self.dialect == OAS30 else self.base
         self.opts = ref_opts(job)
         self.bounds = bounds_of(job)
@@ -116,6 +122,7 @@ class Inst:
     def static_check(self) -> Optional[str]:
         d = self.dialect
         roots = [("schema", self.conv)] + [(f"definition {k}", v) for k, v in (self.defs or {}).items()]
+        roots += [(f"merged definition {k}", v) for k, v in (self.both or {}).items()]
         for where, root in roots:
             for path, sub in walk_schema(root):
                 bad = FOREIGN[d] & set(sub)
